@@ -888,6 +888,18 @@ REPLAYS["minus-minus"] = replay_minus_minus
 REPLAYS["assertion-lt"] = replay_assertion_lt
 
 
+def fallback(rep):
+    """kernels undecided: the replays that need no solver model are run over all their programs; only output that does not re-parse is reported"""
+    for kind in ("minus-minus", "assertion-lt", "interp", "paren-comment", "prefix"):
+        try:
+            v, rec = REPLAYS[kind]({})
+        except (KeyError, TypeError, IndexError):
+            continue
+        if v:
+            rep.add(f"battery/{kind}", rep.violation({"obligation": "battery-after-undecided-kernel", "scenario": kind}, {"what": "kernel undecided; replay programs", "observed": v,
+                                                                                                                   "kind": kind, "info": {}, **rec}), v)
+
+
 def replay(path):
     d = json.load(open(path))
     r = d["replay"]
